@@ -1397,6 +1397,32 @@ stage F(
     src comp  "bin",
 )
 
+stage CHK(
+    in  int  x,
+    out bool skip,
+    src comp "bin",
+)
+
+stage WS(
+    in  int x,
+    out int o,
+    src comp "bin",
+)
+
+pipeline W(
+    in  int x,
+    out int o,
+)
+{
+    call WS(
+        x = self.x,
+    )
+
+    return (
+        o = WS.o,
+    )
+}
+
 pipeline R(
     in  int x,
     out int o,
@@ -1430,6 +1456,7 @@ pipeline P(
     out int o,
     out int d,
     out int f,
+    out int w,
 )
 {
     call PRE(
@@ -1467,10 +1494,21 @@ pipeline P(
         xs = E.o,
     )
 
+    call CHK(
+        x = self.x,
+    )
+
+    call W(
+        x = self.x,
+    ) using (
+        disabled = CHK.skip,
+    )
+
     return (
         o = Q.o,
         d = D.o,
         f = F.o,
+        w = W.o,
     )
 }
 
@@ -1482,7 +1520,7 @@ call P(
 // what each stage call must wait for, read off the text above: the producers
 // of its inputs, the producer of its disabling condition, and the preflight of
 // every enclosing pipeline
-var vsRealStages = []string{"ID.ps.P.PRE", "ID.ps.P.A", "ID.ps.P.C", "ID.ps.P.Q.R.B", "ID.ps.P.D", "ID.ps.P.E", "ID.ps.P.F"}
+var vsRealStages = []string{"ID.ps.P.PRE", "ID.ps.P.A", "ID.ps.P.C", "ID.ps.P.Q.R.B", "ID.ps.P.D", "ID.ps.P.E", "ID.ps.P.F", "ID.ps.P.CHK", "ID.ps.P.W.WS"}
 var vsRealDeps = [][]int{
 	{},        // PRE
 	{0},       // A
@@ -1491,6 +1529,8 @@ var vsRealDeps = [][]int{
 	{0, 2, 1}, // D <- C.o, disabled = A.flag
 	{0},       // E (2 forks)
 	{0, 5},    // F <- E.o
+	{0},       // CHK
+	{0, 7},    // WS, inside the pipeline W called with disabled = CHK.skip
 }
 
 type vsReal struct {
@@ -1500,19 +1540,48 @@ type vsReal struct {
 
 // vsRealGraph instantiates the pipeline once per engine worker (the build is
 // concrete); whatever a path does to it is undone when the path ends.
-func vsRealGraph() (*Pipestance, []*Node) {
+// vsRealText: the program above; the bounded-run harness (every completion
+// order) uses it without the call CHK and the conditionally disabled
+// sub-pipeline W, whose two additional jobs multiply its completion orders by
+// 25.
+func vsRealText(extended bool) string {
+	if extended {
+		return vsRealSrc
+	}
+	t := vsRealSrc
+	for _, cut := range []string{
+		"    call CHK(\n        x = self.x,\n    )\n\n    call W(\n        x = self.x,\n    ) using (\n        disabled = CHK.skip,\n    )\n\n",
+		"        w = W.o,\n",
+		"    out int w,\n",
+	} {
+		i := strings.Index(t, cut)
+		if i < 0 {
+			panic("fixture text lacks " + cut)
+		}
+		t = t[:i] + t[i+len(cut):]
+	}
+	return t
+}
+
+func vsRealGraph() (*Pipestance, []*Node) { return vsRealGraphOf(true) }
+
+func vsRealGraphOf(extended bool) (*Pipestance, []*Node) {
 	disableUniquification = false
 	vsDisabled, vsResolveErr, vsDefsErr, vsReadErr = false, false, false, false
 	vsOutsOK, vsChunkOutOK = true, true
 	vsChunks = 1
-	r := verifCached("vsRealGraph", func() any {
+	key, stages := "vsRealGraph", vsRealStages
+	if !extended {
+		key, stages = "vsRealGraphBase", vsRealStages[:7]
+	}
+	r := verifCached(key, func() any {
 		rt := vsRuntime()
-		_, _, ps, err := rt.instantiatePipeline([]byte(vsRealSrc), "/m/p.mro", "ps", "/ps", nil, "none", nil, false, true, context.Background())
+		_, _, ps, err := rt.instantiatePipeline([]byte(vsRealText(extended)), "/m/p.mro", "ps", "/ps", nil, "none", nil, false, true, context.Background())
 		if err != nil {
 			panic("fixture does not instantiate: " + err.Error())
 		}
 		var nodes []*Node
-		for _, fq := range vsRealStages {
+		for _, fq := range stages {
 			n := ps.node.top.allNodes[fq]
 			if n == nil {
 				panic("fixture has no node " + fq)
@@ -1630,7 +1699,7 @@ func vsLocalRefresh(self *LocalJobManager, localMode bool) error { return nil }
 //	     nothing more is submitted, every stage fork has run and the pipestance
 //	     is complete (nothing is left behind, no stall).
 func H_SCHED_run(rounds int) {
-	ps, nodes := vsRealGraph()
+	ps, nodes := vsRealGraphOf(false)
 	disableDiskSpaceCheck = true
 	ps.node.top.rt.LocalJobManager = &LocalJobManager{}
 	ps.metadata.contents[Lock] = struct{}{}
@@ -1639,7 +1708,7 @@ func H_SCHED_run(rounds int) {
 	vsGlob = nil
 	ps.LoadMetadata(context.Background())
 	vsExec = nil
-	vsRealOuts = LazyArgumentMap{"o": json.RawMessage("1"), "flag": json.RawMessage("false")}
+	vsRealOuts = LazyArgumentMap{"o": json.RawMessage("1"), "flag": json.RawMessage("false"), "skip": json.RawMessage("false")}
 	finished := map[*Metadata]bool{}
 	owner := func(m *Metadata) int {
 		for i, n := range nodes {
